@@ -185,7 +185,9 @@ def replay_hist(typ, lazy, hist):
     for step in hist[1:]:
         op = step["op"]
         if op["k"] == "arith" and op["other"] == "array" and op["fn"] in ("rmul", "rtruediv"):
-            continue      # ndarray (op) object dispatches to NumPy's broadcasting over the object, not to abTEM
+            continue
+        if int(np.prod(obj.shape)) == 0:
+            break         # an empty selection: no values left to compare, NumPy and dask themselves disagree on reductions      # ndarray (op) object dispatches to NumPy's broadcasting over the object, not to abTEM
         try:
             new, expected = apply_op(obj, op)
             ok = close(arr_of(new), np.asarray(expected))
